@@ -4,3 +4,4 @@ import XfemmVerif.Model.Markers
 import XfemmVerif.Model.Exit
 import XfemmVerif.Model.Refs
 import XfemmVerif.Model.ESolver
+import XfemmVerif.Model.Heat
